@@ -12,10 +12,16 @@ CHECKS = {
             "mask of both back-ends equals viable continuations on every generated (grammar, context) incl. non-viable contexts and contexts with EOS"),
     "C02": ("7/C02", "runtime monitoring: four parsers + materialize observed on generated grammars x all short strings x 10 semirings under hash-seed / tie-break / permutation / renaming schedules, judged by a reference derivation-sum oracle",
             "every observed parser value equals the reference derivation sum (exact over Q/Poly/idempotent semirings, 1e-8 otherwise)"),
+    "C03": ("7/C03", "runtime monitoring: prefix_weight / prefix_grammar / derivatives / derivative observed on generated grammars x all short prefixes, judged by an independent prefix-weight oracle (Jelinek-Lafferty decomposition, exact over Q where linear), with the oracle itself cross-checked against explicit sums on finite languages",
+            "every observed prefix weight and derivative value equals the reference value"),
+    "C04": ("7/C04", "runtime monitoring: p_next / chain-rule / unnormalised next-token weights of the three LM back-ends observed on generated grammars x all short contexts and on 100-300-token strings of linear grammars, judged by exact prefix-weight oracles (rational forward algorithm for long contexts) under hash-seed and tie-break schedules",
+            "every observed conditional, chain-rule probability, unnormalised weight and log-weight equals the reference (1e-7 / truncation-scaled tolerance)"),
     "C06": ("7/C06", "runtime monitoring: every grammar transformation (all options) observed on generated grammars; the reference oracle is evaluated on the input and on the output rule lists for all short strings, over 6 semirings incl. exact Q and free Poly",
             "every observed transformation output assigns every string up to the bound the input's weight"),
     "C07": ("7/C07", "runtime monitoring: structural postcondition monitors (independent shape predicates) on the result of every normal-form call, driven by generated grammars incl. useless-symbol and empty-language classes",
             "every observed normal-form output satisfies the stated shape predicates"),
+    "C08": ("7/C08", "runtime monitoring: agenda / naive_bottom_up / treesum / expected_length observed on generated convergent grammars over 9 semirings under native, fifo and random agenda pop orders and several hash seeds, judged by an independent least-fixed-point solver (exact linear solve per SCC, Kleene+Newton otherwise)",
+            "every observed total weight equals the reference least solution (exact for idempotent semirings and Q, 1e-9+1e-8 relative otherwise)"),
 }
 
 LEVEL_NOTE = (
